@@ -809,14 +809,17 @@ def worker(bdir, tools, lo, hi, tier):
     res = core.Result()
     b = build.Build("asan", bdir)
     box = Box(b, tools)
-    for i in range(lo, hi):
-        t = time.time()
-        try:
-            run_case(res, box, i, tier)
-        except core.Inconclusive as e:
-            res.inconclusive.append("case %d: %s" % (i, e))
-        if time.time() - t > 20:
-            res.counters.setdefault("slow_cases", []).append("case %d: %.0fs" % (i, time.time() - t))
+    try:
+        for i in range(lo, hi):
+            t = time.time()
+            try:
+                run_case(res, box, i, tier)
+            except core.Inconclusive as e:
+                res.inconclusive.append("case %d: %s" % (i, e))
+            if time.time() - t > 20:
+                res.counters.setdefault("slow_cases", []).append("case %d: %.0fs" % (i, time.time() - t))
+    finally:
+        shutil.rmtree(box.base, ignore_errors=True)     # (pool workers do not run atexit handlers)
     return res
 
 
